@@ -21,6 +21,7 @@ import (
 	"fmt"
 	"log"
 	"reflect"
+	"sort"
 	"sync"
 	"sync/atomic"
 	"time"
@@ -61,6 +62,10 @@ type SlidingWindow struct {
 	slide time.Duration
 	// mu protects concurrent data access
 	mu sync.RWMutex
+	// sendMu orders the results that leave the window: it is taken while mu is still
+	// held and kept until the send finished, so a late update cut after a firing can
+	// never overtake that firing on the way to the output channel.
+	sendMu sync.Mutex
 	// data stores window data
 	data []types.Row
 	// outputChan is the channel for outputting window data
@@ -251,31 +256,31 @@ func (sw *SlidingWindow) Add(data any) {
 		sw.currentSlot.Start.UnixMilli(), sw.currentSlot.End.UnixMilli(),
 		sw.currentSlot.Contains(eventTime))
 
-	// Late data (event time): keep only what will actually be processed — a row in
-	// the current not-yet-triggered window, or (when AllowedLateness > 0) a row
-	// landing in a triggered window still open for late updates. Drop the rest so
-	// sw.data cannot grow without bound under sustained out-of-order input.
+	// Late data (event time, timestamp older than the watermark). What happens to
+	// the row depends only on the watermark and the windows covering the row, never
+	// on how far the trigger goroutine has got:
+	//   - every fired window that covers it and is still within AllowedLateness is
+	//     re-emitted with the row;
+	//   - it is kept for the covering windows that have not fired yet;
+	//   - if neither exists (all covering windows closed for good or passed) it is dropped.
 	if timeChar == types.EventTime && sw.watermark != nil && sw.watermark.IsEventTimeLate(eventTime) {
-		switch {
-		case sw.initialized && sw.currentSlot != nil && sw.currentSlot.Contains(eventTime):
-			// watermark advanced past the window start but the window has not
-			// triggered yet; the row triggers normally, keep it.
-		case sw.config.AllowedLateness > 0:
-			placed := false
-			for _, info := range sw.triggeredWindows {
-				if info.slot.Contains(eventTime) {
-					sw.handleLateData(eventTime, sw.config.AllowedLateness)
-					placed = true
-					break
-				}
+		wm := sw.watermark.GetCurrentWatermark()
+		var lateSlots []*types.TimeSlot
+		for _, info := range sw.triggeredWindows {
+			if info.slot.Contains(eventTime) && wm.Before(info.closeTime) {
+				lateSlots = append(lateSlots, info.slot)
 			}
-			if !placed {
-				// beyond allowed lateness with no open triggered window: drop
-				sw.dropLastRow()
-			}
-		default:
-			// AllowedLateness == 0 (default) and not in the current window: drop
+		}
+		// latest window covering the row; with slide > size the row may lie in a gap
+		last := sw.createSlotFromStart(alignWindowStart(eventTime, sw.slide))
+		pending := last.Contains(eventTime) && sw.currentSlot != nil && !sw.currentSlot.Start.After(*last.Start) &&
+			wm.Before(last.End.Add(sw.config.AllowedLateness))
+		if len(lateSlots) == 0 && !pending {
 			sw.dropLastRow()
+		}
+		sort.Slice(lateSlots, func(a, b int) bool { return lateSlots[a].Start.Before(*lateSlots[b].Start) })
+		for _, slot := range lateSlots {
+			sw.triggerLateUpdateLocked(slot)
 		}
 	}
 }
@@ -531,11 +536,8 @@ func (sw *SlidingWindow) checkAndTriggerWindows(watermarkTime time.Time) {
 			debugLogSliding("checkAndTriggerWindows: triggering window [%v, %v) with %d data items",
 				windowStart.UnixMilli(), windowEnd.UnixMilli(), dataInWindow)
 
-			sw.triggerSpecificWindowLocked(slotToTrigger)
-
-			debugLogSliding("checkAndTriggerWindows: window triggered successfully")
-
-			// If allowedLateness > 0, keep window open for late data
+			// If allowedLateness > 0, keep window open for late data. Registered before the
+			// send below releases the lock, so a late row arriving meanwhile finds it.
 			if allowedLateness > 0 {
 				windowKey := sw.getWindowKey(*slotToTrigger.End)
 				closeTime := slotToTrigger.End.Add(allowedLateness)
@@ -547,6 +549,11 @@ func (sw *SlidingWindow) checkAndTriggerWindows(watermarkTime time.Time) {
 				debugLogSliding("checkAndTriggerWindows: window [%v, %v) kept open for late data until %v",
 					windowStart.UnixMilli(), windowEnd.UnixMilli(), closeTime.UnixMilli())
 			}
+
+			sw.triggerSpecificWindowLocked(slotToTrigger)
+
+			debugLogSliding("checkAndTriggerWindows: window triggered successfully")
+
 		} else {
 			debugLogSliding("checkAndTriggerWindows: window [%v, %v) has no data, skipping trigger",
 				windowStart.UnixMilli(), windowEnd.UnixMilli())
@@ -606,6 +613,7 @@ func (sw *SlidingWindow) triggerSpecificWindowLocked(slot *types.TimeSlot) {
 	callback := sw.callback
 
 	// Release lock before calling callback and sending to channel to avoid blocking
+	sw.sendMu.Lock()
 	sw.mu.Unlock()
 	verifhook.Point("sliding.trigger.unlocked")
 
@@ -614,6 +622,7 @@ func (sw *SlidingWindow) triggerSpecificWindowLocked(slot *types.TimeSlot) {
 	}
 
 	sw.sendResult(resultData)
+	sw.sendMu.Unlock()
 
 	// Re-acquire lock to update statistics
 	sw.mu.Lock()
@@ -703,6 +712,7 @@ func (sw *SlidingWindow) Trigger() {
 	callback := sw.callback
 
 	// Release lock before calling callback and sending to channel to avoid blocking
+	sw.sendMu.Lock()
 	sw.mu.Unlock()
 
 	if callback != nil {
@@ -710,6 +720,7 @@ func (sw *SlidingWindow) Trigger() {
 	}
 
 	sw.sendResult(resultData)
+	sw.sendMu.Unlock()
 }
 
 func (sw *SlidingWindow) sendResult(data []types.Row) {
@@ -947,6 +958,7 @@ func (sw *SlidingWindow) triggerLateUpdateLocked(slot *types.TimeSlot) {
 	callback := sw.callback
 
 	// Release lock before calling callback and sending to channel to avoid blocking
+	sw.sendMu.Lock()
 	sw.mu.Unlock()
 	verifhook.Point("sliding.late.unlocked")
 
@@ -964,13 +976,14 @@ func (sw *SlidingWindow) triggerLateUpdateLocked(slot *types.TimeSlot) {
 		// Channel full, drop result
 		sent = false
 	}
+	sw.sendMu.Unlock()
 
 	// Re-acquire lock to update statistics
 	sw.mu.Lock()
 	if sent {
-		sw.sentCount++
+		atomic.AddInt64(&sw.sentCount, 1)
 	} else {
-		sw.droppedCount++
+		atomic.AddInt64(&sw.droppedCount, 1)
 	}
 }
 
